@@ -606,6 +606,38 @@ def probe_cvxpy(wrapper, NP, NE):
     return dict(native=native, msizes=sizes, obj=obj)
 
 
+def probe_heuristic_objective(wrapper, NP):
+    """Coefficients (fixed point, one per pair i <= j of the Gram matrix) of the objective of the LAST cvxpy problem when
+    it is a minimisation (the dimension-reduction problems minimise <W, G>): read by setting G to basis matrices."""
+    import cvxpy as cp
+    prob = getattr(wrapper, "prob", None)
+    if prob is None or not isinstance(prob.objective, cp.Minimize):
+        return []
+    expr = prob.objective.args[0]
+    variables = list(prob.variables())
+    saved = [None if v.value is None else np.array(v.value, copy=True) for v in variables]
+
+    def setzero():
+        for v in variables:
+            v.value = np.zeros(v.shape)
+    out = []
+    try:
+        setzero()
+        o0 = float(expr.value)
+        for i in range(NP):
+            for j in range(i, NP):
+                setzero()
+                z = np.zeros((NP, NP)); z[i, j] = 1.; z[j, i] = 1.
+                wrapper.G.value = z
+                out.append(fx(float(expr.value) - o0))
+    except Exception:
+        out = []
+    for v, val in zip(variables, saved):
+        if val is not None:
+            v.value = val
+    return out
+
+
 def _too_large(pep, items, held, solved, limit=1500.0):
     """Magnitude sensor (floats): 1 if evaluating some sent / held expression at the returned instance involves partial
     sums beyond `limit` (a free variable the solver left at a huge value, or a declared bound that is not enforced).
@@ -810,6 +842,7 @@ def observe(pep, ret, held, exact=False, with_native=True, extra_evals=True, use
     out["held"] = hv
     out["items"] = [it for it, o in items]
     out["toolarge"] = _too_large(pep, items, held, solved)
+    out["heurobj"] = probe_heuristic_objective(w, NP) if (solved and w is not None and pep.wrapper_name == "cvxpy") else []
     if with_native and w is not None and pep.wrapper_name == "cvxpy" and getattr(w, "prob", None) is not None:
         out.update(probe_cvxpy(w, NP, NE))
     else:
